@@ -113,7 +113,11 @@ pub struct Ev {
     pub fptr: usize,
     pub rule: Option<String>,
     pub rptr: usize,
+    /// The harness's identity of the scenario (`sid.` tag, else its name).
     pub scenario: Option<String>,
+    /// The name the scenario shows (what reporters print); equals `scenario` unless names are shared.
+    #[serde(default)]
+    pub sc_name: Option<String>,
     pub sptr: usize,
     pub sc_line: usize,
     pub retries: Option<(usize, usize)>,
@@ -233,6 +237,7 @@ impl Recorder {
             rule: None,
             rptr: 0,
             scenario: None,
+            sc_name: None,
             sptr: 0,
             sc_line: 0,
             retries: None,
@@ -287,7 +292,8 @@ impl Recorder {
         s: &event::Source<cucumber::gherkin::Scenario>,
         sev: &event::RetryableScenario<SimWorld>,
     ) {
-        e.scenario = Some(s.name.clone());
+        e.scenario = Some(crate::plan::scenario_identity(s));
+        e.sc_name = Some(s.name.clone());
         e.sptr = self.ptrs.id(s);
         e.sc_line = s.position.line;
         e.retries = sev.retries.map(|r| (r.current, r.left));
